@@ -116,6 +116,7 @@ func runC37(c *Ctx) {
 		}
 	}
 	runC37Extra(c)
+	runC37Second(c)
 	_ = fmt.Sprint
 	_ = token.NoPos
 }
@@ -287,6 +288,96 @@ func runC37Extra(c *Ctx) {
 				okA = definitelyNonNilErr(e.Results[1], e.Guards) // (false, err) on the error branch
 			}
 			c.check(okA, "C37.has-recent", "HasRecent answers from the locator manager", e.pos(), "lm.Has(g, id, ts)", "HasRecent returns ("+r0+", "+r1+") without consulting the locator for this group: an already included transaction is selected again")
+		}
+	}
+}
+
+// runC37Second: rules added for the second list of independent mutants.
+// (1) a transaction whose cumulative effect was applied (PreValidate with
+// update succeeded) is selected or the selection ends — it is never passed
+// over; (2) PreValidate never adds into the *big.Int a GetBalance handed out;
+// (3) PreValidate succeeds only for a sender that is not blocked, whatever
+// kind of account it is.
+func runC37Second(c *Ctx) {
+	if cand := c.mustFn("service", "TransactionPool", "Candidate"); cand != nil {
+		var sel ssa.Instruction
+		for _, cs := range c.calls(cand, byCallee("builtin:append")) {
+			if strings.Contains(cs.Instr.(*ssa.Call).Type().String(), "module.Transaction") {
+				sel = cs.Instr
+			}
+		}
+		pv := c.calls(cand, byMethod("PreValidate"))
+		if sel == nil || len(pv) != 1 {
+			c.undecided("C37.applied-then-selected", "Candidate", cand.Pos(), "selection or PreValidate site not found")
+		} else if h := loopHeaderOf(pv[0].Instr.Block()); h != nil {
+			ev := errValueOf(pv[0].Instr)
+			old := pathEdgeFilter
+			pathEdgeFilter = func(p, s *ssa.BasicBlock) bool {
+				// follow only the edges on which PreValidate succeeded
+				for _, g := range edgeGuard(p, s) {
+					pr := predOf(g)
+					if pr.Kind == "same" && !pr.Pol && ev != nil && (strings.Contains(pr.A, ".PreValidate(") || strings.Contains(pr.B, ".PreValidate(")) {
+						return true
+					}
+				}
+				return false
+			}
+			tr, skip := pathAvoiding(cand, pv[0].Instr, func(in ssa.Instruction) bool { return in == h.Instrs[0] }, func(in ssa.Instruction) bool { return in == sel })
+			pathEdgeFilter = old
+			c.check(!skip, "C37.applied-then-selected", "a transaction whose balance effect was applied is selected before the next one is looked at", pv[0].Pos(), "PreValidate ok → append (or the loop ends)", "after a successful PreValidate(update) the loop can go on to the next transaction without selecting this one ("+traceString(tr)+"): its debit and credit stay in the balances later candidates are checked against")
+		}
+	}
+	if pv := c.mustFn("service/transaction", "transactionV3", "PreValidate"); pv != nil {
+		n := 0
+		for _, cs := range c.calls(pv, func(cc *ssa.CallCommon) bool {
+			return strings.HasPrefix(calleeName(cc), "(*math/big.Int).") && bigMutators[methodName(cc)]
+		}) {
+			n++
+			r, _ := callArgs(cs.Common())
+			c.check(!strings.HasSuffix(render(r), ".GetBalance()"), "C37.cumulative", "PreValidate computes new balances into fresh integers", cs.Pos(), render(r), "PreValidate applies "+methodName(cs.Common())+" to the *big.Int returned by GetBalance: that integer is shared with the account snapshot (and with the zero balance of every empty account)")
+		}
+		if n == 0 {
+			c.undecided("C37.cumulative", "PreValidate arithmetic", pv.Pos(), "no big.Int operations found")
+		}
+		// minimum steps = one default step + one input step per measured byte
+		nS := 0
+		for _, cs := range c.calls(pv, byMethod("StepsFor")) {
+			_, a := callArgs(cs.Common())
+			ty, cnt := render(a[0]), render(a[1])
+			nS++
+			switch ty {
+			case `"default"`:
+				c.check(cnt == "1", "C37.min-steps", "minimum steps: one default step", cs.Pos(), "StepsFor(default, 1)", "default steps counted "+cnt+" times")
+			case `"input"`:
+				c.check(strings.Contains(cnt, "MeasureBytesOfData(") && strings.HasSuffix(cnt, "#0"), "C37.min-steps", "minimum steps: one input step per measured byte of data", cs.Pos(), "StepsFor(input, measured bytes)", "input steps counted "+cnt+" times")
+			default:
+				c.violate("C37.min-steps", "minimum steps use the default and input step types", cs.Pos(), "step type "+ty)
+			}
+		}
+		if nS != 2 {
+			c.undecided("C37.min-steps", "minimum-step formula", pv.Pos(), fmt.Sprintf("expected 2 StepsFor calls, found %d", nS))
+		}
+		for _, e := range successAlts(pv) {
+			c.requireGuard("C37.sender-not-blocked", "PreValidate accepts", e.pos(), e.Guards, wFalse("sender is not blocked", `\.From\(\)\.ID\(\)\)\.IsBlocked\(\)$`))
+		}
+	}
+	// the built-in default threshold stands in only for `not configured`
+	if f := c.mustFn("service", "", "TransactionTimestampThreshold"); f != nil {
+		def, _ := c.constVal("service", "ConfigTXTimestampThresholdDefault")
+		n := 0
+		for _, e := range exitAlts(f) {
+			for _, fl := range flowsOf(e.Results[0], nil) {
+				k, isK := constInt(fl.Src)
+				if !isK || k != def {
+					continue
+				}
+				n++
+				gs := append(append([]Guard{}, e.Guards...), fl.Guards...)
+				c.requireGuard("C37.window", "the default threshold is returned", e.pos(), gs, wEQ("configured threshold == 0", 0, t(1, `\.TransactionTimestampThreshold\(\)$`)))
+			}
+		}
+		if n == 0 {
+			c.undecided("C37.window", "TransactionTimestampThreshold default", f.Pos(), "no flow of the default constant")
 		}
 	}
 }
